@@ -149,6 +149,26 @@ class Inst:
         self.kind, self.name, self.cont, self.ctx = kind, name, cont, ctx
 
 
+LICENSE_TXT = "/*\n * Copyright (c) The Example Authors.\n * Licensed under the MIT license; see LICENSE.\n */\n"
+WARNING_TXT = "/* Warning, this file is autogenerated by cbindgen. Don't modify this manually. */\n"
+
+
+def preamble_parts(model):
+    """(text before the includes, text after the last item, foreign declarations among them)"""
+    pre = getattr(model, "preamble", None) or {}
+    head, tail, foreign = "", "", []
+    if pre.get("license"):
+        head += LICENSE_TXT + "\n"
+        foreign.append(LICENSE_TXT)
+    if pre.get("guard"):
+        head += "#ifndef EXAMPLE_API_H\n#define EXAMPLE_API_H\n\n"
+        tail = "\n#endif /* EXAMPLE_API_H */\n"
+    if pre.get("warning"):
+        head += WARNING_TXT + "\n"
+        foreign.append(WARNING_TXT)
+    return head, tail, foreign
+
+
 class Model:
     def __init__(self):
         self.traits = {}
@@ -253,6 +273,8 @@ def gen_model(rng, foreign=True):
             m.foreign.append((rng.random(), txt))
     # cbindgen only prints the carrier types the exported items reach; most real APIs reach both
     m.omit_unused_carriers = rng.random() < 0.12
+    # what cbindgen's `header`, `include_guard` and `autogen_warning` options put before the includes
+    m.preamble = {"license": rng.random() < 0.25, "guard": rng.random() < 0.2, "warning": rng.random() < 0.2}
     cfg = {}
     if rng.random() < 0.5:
         cfg["default_container"] = rng.choice(["Box", "Mut"])
@@ -368,7 +390,8 @@ def render(model):
     funcs.append("uint32_t user_function(uint32_t x);\n")
     foreign_texts += funcs
     ext = "#ifdef __cplusplus\nextern \"C\" {\n#endif // __cplusplus\n\n" + "\n".join(funcs) + "\n#ifdef __cplusplus\n} // extern \"C\"\n#endif // __cplusplus\n"
-    return INCLUDES_C + body + "\n" + ext, foreign_texts
+    head, tail, pf = preamble_parts(model)
+    return head + INCLUDES_C + body + "\n" + ext + tail, pf + foreign_texts
 
 
 # ---- execution oracle (C) ----------------------------------------------------------------------
@@ -729,7 +752,8 @@ def render_cpp(model):
     # (the tool rewrites `MaybeUninit<T>` to `T` everywhere, also in the user's functions: documented)
     foreign_texts += [f for f in funcs if "MaybeUninit" not in f]
     ext = "extern \"C\" {\n\n" + "\n".join(funcs) + "\n} // extern \"C\"\n"
-    return INCLUDES_CPP + body + "\n" + ext, foreign_texts
+    head, tail, pf = preamble_parts(model)
+    return head + INCLUDES_CPP + body + "\n" + ext + tail, pf + foreign_texts
 
 
 FOREIGN_POOL_CPP = [
